@@ -12,6 +12,8 @@
 (*               the drop is reported                                             *)
 (*   client paths (request, notify): ~over -> sent and seen by the server;        *)
 (*       over -> fails locally with MessageTooLarge and the server sees nothing   *)
+(*   bounded (very long method paths): whatever is answered - the error echoing    *)
+(*       the path or its replacement - is one message, with the id, <= limit       *)
 (*   in every case the connection is usable afterwards.                           *)
 EXTENDS Integers, Sequences, FiniteSets, TLC, Json, IOUtils
 Rec == ndJsonDeserialize(IOEnv.TRACE)
@@ -38,6 +40,13 @@ Bad(e) ==
           THEN (IF ~Has(e.notifies_observed, e.size) THEN "notify_not_delivered" ELSE "")
           ELSE (IF Has(e.notifies_observed, e.size) \/ ~AllLeq(e.notifies_observed, e.limit) THEN "oversize_sent"
                 ELSE IF ~e.reported THEN "not_reported" ELSE ""))
+    ELSE IF e.kind = "bounded" THEN
+         \* a request with a very long method path: exactly one answer, with the request's id, within the limit
+         (IF Len(e.observed) # 1 THEN "no_answer"
+          ELSE IF ~AllLeq(e.observed, e.limit) THEN "oversize_sent"
+          ELSE IF ~e.same_id THEN "replacement_lost_id"
+          ELSE IF e.ec \notin {6, 9} THEN "unexpected_code"
+          ELSE "")
     ELSE \* client
          (IF ~Over(e)
           THEN (IF ~e.ok \/ e.server_saw # 1 THEN "client_message_lost" ELSE "")
